@@ -9,6 +9,7 @@ import (
 	"encoding/json"
 	"flag"
 	"fmt"
+	"github.com/ethereum/go-ethereum/metrics"
 	"os"
 	"os/exec"
 	"path/filepath"
@@ -130,6 +131,11 @@ func verifDir() string {
 }
 
 func main() {
+	// shisui --metrics: every "if metrics.Enabled()" branch of the code under test runs as well (the
+	// branches only add counting; VERIF_METRICS=off runs without them)
+	if os.Getenv("VERIF_METRICS") != "off" {
+		metrics.Enable()
+	}
 	prop := flag.String("prop", "", "property id")
 	tier := flag.String("tier", "quick", "quick|thorough")
 	worker := flag.String("worker", "", "i/n (internal)")
